@@ -68,7 +68,7 @@ func libEffects(name string) []string {
 var effectScopeExclude = []string{"/simulation", "/client/", "/testutil", "/types/query", "/docs"}
 
 func inEffectScope(pkgPath string) bool {
-	if !strings.HasPrefix(pkgPath, repoModule+"/x/") && !strings.HasPrefix(pkgPath, repoModule+"/app/upgrades") {
+	if !strings.HasPrefix(pkgPath, repoModule+"/x/") && !strings.HasPrefix(pkgPath, repoModule+"/app/upgrades") && pkgPath != repoModule+"/app" {
 		return false
 	}
 	for _, e := range effectScopeExclude {
@@ -240,6 +240,10 @@ func isEntryPoint(fn *ssa.Function) bool {
 	switch named.Obj().Name() {
 	case "msgServer":
 		return fn.Synthetic == ""
+	case "App":
+		// the application's own ABCI steps (app/app.go): what they do besides running the module manager is consensus code too
+		n := fn.Name()
+		return n == "InitChainer" || n == "BeginBlocker" || n == "EndBlocker"
 	case "AppModule":
 		n := fn.Name()
 		return n == "BeginBlock" || n == "EndBlock" || n == "InitGenesis" || n == "ExportGenesis"
